@@ -642,7 +642,12 @@ def check_validate(ctx, case):
                             if abs(b - a) * 2 > 1:
                                 bad = (i, j, float(src_dense[i, j]), b)
                     if bad is not None:
-                        viol('dtype-overflow' if abs(bad[3] - bad[2]) > 1
+                        rl = [indep_round(float(x)) for x in src_dense.flat]
+                        fits_any = any(l <= min(rl) and max(rl) <= h
+                                       for _, l, h in LADDER)
+                        viol(('dtype-overflow' if fits_any else
+                              'dtype-overflow/no-ladder-type-fits')
+                             if abs(bad[3] - bad[2]) > 1
                              else 'moved-more-than-half',
                              'entry %r of the requested layer is %r in the '
                              'new X (%s): moved by more than one half'
